@@ -1837,3 +1837,34 @@ package log
 //@ func (*DiscardAppender).Write
 //@   modifies nothing
 //@   nopanic[C16,C19]
+
+// ---- C15: one attribute of a plugin: configured value, else declared default, else an error; ${key} ----------------
+// (reflection enters only through the assumed contracts of reflect.Value's Kind / Set* / Call; which value
+// the field receives is decided by string and storage logic, and that is what is specified here)
+//@ spec fun attrName(tag string) string = tagItem(tag, 0)
+//@ spec fun attrKey(prefix string, tag string) string = prefix + "." + toCamelKey(attrName(tag))
+//@ spec fun isPlaceholder(v string) bool = has_prefix(v, "${") && has_suffix(v, "}")
+//@ spec fun noDefault(tag string) bool = forall j int :: 1 <= j && j < split_count(tag, ',') ==> itemOK(tag, j) && itemName(tag, j) != "default"
+//@ spec fun plainString(fv reflect.Value, ft reflect.StructField) bool = !has(typeConverters, ft.Type) && reflect.Value.Kind(fv) == 24
+
+//@ func injectAttribute
+//@   requires s != nil && typeConverters != nil && ft.Type != nil
+//@   requires attrName(tag) == "name" ==> reflect.Value.Kind(fv) == 24
+//@   modifies rvSets[fv], rvStr[fv], rvInt[fv], rvBool[fv], rvVal[fv]
+//@   nopanic[C15]
+//@   ensures[C15:set-exactly-once-or-an-error] (result == nil ==> rvSets[fv] == old(rvSets[fv]) + 1) && (result != nil ==> rvSets[fv] == old(rvSets[fv]))
+//@   ensures[C15:an-attribute-needs-a-name] attrName(tag) == "" ==> result != nil
+//@   ensures[C15:the-name-attribute-is-the-last-path-segment] attrName(tag) == "name" ==> result == nil && rvStr[fv] == prefix[str_last(prefix, '.')+1:]
+//@   ensures[C15:neither-configured-nor-defaulted-is-an-error] attrName(tag) != "" && attrName(tag) != "name" && !stHas[s][attrKey(prefix, tag)] && noDefault(tag) ==> result != nil
+//@   ensures[C15:configured-value-wins] attrName(tag) != "" && attrName(tag) != "name" && stHas[s][attrKey(prefix, tag)] && !isPlaceholder(str_trim(stVal[s][attrKey(prefix, tag)])) && plainString(fv, ft) ==> result == nil && rvStr[fv] == str_trim(stVal[s][attrKey(prefix, tag)])
+//@   ensures[C15:placeholder-is-replaced-by-the-top-level-property] attrName(tag) != "" && attrName(tag) != "name" && stHas[s][attrKey(prefix, tag)] && isPlaceholder(str_trim(stVal[s][attrKey(prefix, tag)])) && plainString(fv, ft) && stHas[s][toCamelKey(str_trim(stVal[s][attrKey(prefix, tag)])[2:len(str_trim(stVal[s][attrKey(prefix, tag)]))-1])] ==> result == nil && rvStr[fv] == stVal[s][toCamelKey(str_trim(stVal[s][attrKey(prefix, tag)])[2:len(str_trim(stVal[s][attrKey(prefix, tag)]))-1])]
+//@   ensures[C15:placeholder-without-the-property-is-an-error] attrName(tag) != "" && attrName(tag) != "name" && stHas[s][attrKey(prefix, tag)] && isPlaceholder(str_trim(stVal[s][attrKey(prefix, tag)])) && !stHas[s][toCamelKey(str_trim(stVal[s][attrKey(prefix, tag)])[2:len(str_trim(stVal[s][attrKey(prefix, tag)]))-1])] ==> result != nil
+//@   ensures[C15:default-when-not-configured] forall i int :: attrName(tag) != "" && attrName(tag) != "name" && !stHas[s][attrKey(prefix, tag)] && plainString(fv, ft) && 1 <= i && i < split_count(tag, ',') && itemOK(tag, i) && itemName(tag, i) == "default" && (forall j int :: 1 <= j && j < i ==> itemOK(tag, j) && itemName(tag, j) != "default") && !isPlaceholder(str_trim(itemValue(tag, i))) ==> result == nil && rvStr[fv] == str_trim(itemValue(tag, i))
+//@   let cfgd = attrName(tag) != "" && attrName(tag) != "name" && stHas[s][attrKey(prefix, tag)] && !isPlaceholder(str_trim(stVal[s][attrKey(prefix, tag)])) && !has(typeConverters, ft.Type)
+//@   let cval = str_trim(stVal[s][attrKey(prefix, tag)])
+//@   let bits = reflect.Type.Bits(reflect.Value.Type(fv))
+//@   ensures[C15:an-integer-that-does-not-parse-is-an-error] cfgd && 2 <= reflect.Value.Kind(fv) && reflect.Value.Kind(fv) <= 6 ==> (result == nil) == parse_int_ok(cval, 0, bits) && (result == nil ==> rvInt[fv] == parse_int_val(cval, 0, bits))
+//@   ensures[C15:an-unsigned-that-does-not-parse-is-an-error] cfgd && 7 <= reflect.Value.Kind(fv) && reflect.Value.Kind(fv) <= 11 ==> (result == nil) == parse_uint_ok(cval, 0, bits) && (result == nil ==> rvInt[fv] == parse_uint_val(cval, 0, bits))
+//@   ensures[C15:a-float-that-does-not-parse-is-an-error] cfgd && (reflect.Value.Kind(fv) == 13 || reflect.Value.Kind(fv) == 14) ==> (result == nil) == parse_float_ok(cval, 64) && (result == nil ==> rvInt[fv] == parse_float_val(cval, 64))
+//@   ensures[C15:a-boolean-that-does-not-parse-is-an-error] cfgd && reflect.Value.Kind(fv) == 1 ==> (result == nil) == parse_bool_ok(cval) && (result == nil ==> rvBool[fv] == parse_bool_val(cval))
+//@   ensures[C15:other-kinds-are-an-error] cfgd && !(1 <= reflect.Value.Kind(fv) && reflect.Value.Kind(fv) <= 11) && reflect.Value.Kind(fv) != 13 && reflect.Value.Kind(fv) != 14 && reflect.Value.Kind(fv) != 24 ==> result != nil
